@@ -248,18 +248,51 @@ Proof.
       * intros i Hi. specialize (H (S i) ltac:(simpl; lia)). simpl in H. rewrite H. destruct i; reflexivity.
 Qed.
 
+(* what the incremental finishing step does to a row of new cells *)
+Lemma map_set_meta {B} (f : cell -> B) m row :
+  (forall c, f (set_meta m c) = f c) -> map f (map (set_meta m) row) = map f row.
+Proof. intros H. rewrite map_map. apply map_ext. exact H. Qed.
+
+Theorem finish_row_inc_spec hd_ e row :
+  let out := finish_row true hd_ e row in
+  map (fun c => (ps c, pe c, ev c, cvals c)) out = map (fun c => (ps c, pe c, ev c, cvals c)) row /\
+  Forall (fun c => ckind c = KInc /\ cmeta c = cmeta hd_) out /\ chained_b (ev e) out = true.
+Proof.
+  intros out. unfold out, finish_row.
+  destruct (chain_spec (map (set_meta (cmeta hd_)) row) (ev e)) as [H1 [H2 [H3 [H4 [H5 [H6 H7]]]]]].
+  rewrite (map_set_meta ps) in H1 by reflexivity. rewrite (map_set_meta pe) in H2 by reflexivity.
+  rewrite (map_set_meta ev) in H3 by reflexivity. rewrite (map_set_meta cvals) in H5 by reflexivity.
+  rewrite map_map in H4. cbn [set_meta cmeta] in H4.
+  split; [|split; [|assumption]].
+  - clear H4 H6 H7. revert H1 H2 H3 H5. generalize (chain (ev e) (map (set_meta (cmeta hd_)) row)). clear.
+    induction row as [|c r IH]; intros [|d l]; simpl; intros H1 H2 H3 H5; try discriminate; [reflexivity|].
+    inversion H1; inversion H2; inversion H3; inversion H5. rewrite (IH l) by assumption. congruence.
+  - clear H1 H2 H3 H5 H7. revert H4 H6. generalize (chain (ev e) (map (set_meta (cmeta hd_)) row)). clear.
+    induction row as [|c r IH]; intros [|d l]; simpl; intros H4 H6; try discriminate; [constructor|].
+    injection H4 as E1 E2. inversion H6 as [|? ? K1 K2]. constructor; [split; assumption|].
+    apply IH; assumption.
+Qed.
+
 Theorem right_triangle_inc_rows u lags s e :
   let row := rt_row u (slice_lags u lags s) e in
-  let out := finish_row true e row in
-  map (fun c => (ps c, pe c, ev c, cmeta c, cvals c)) out = map (fun c => (ps c, pe c, ev c, cmeta c, cvals c)) row /\
-  Forall (fun c => ckind c = KInc) out /\ chained_b (ev e) out = true.
+  let out := finish_row true (row_head s e) e row in
+  map (fun c => (ps c, pe c, ev c, cvals c)) out = map (fun c => (ps c, pe c, ev c, cvals c)) row /\
+  Forall (fun c => ckind c = KInc /\ cmeta c = cmeta (row_head s e)) out /\ chained_b (ev e) out = true.
+Proof. intros row out. apply finish_row_inc_spec. Qed.
+
+(* the group key of to_cumulative: the first cell of the edge's row, a cell of the same slice and period *)
+Lemma row_head_spec s e : In e s -> In (row_head s e) s /\ period (row_head s e) = period e.
 Proof.
-  intros row out. unfold out, finish_row. destruct (chain_spec row (ev e)) as [H1 [H2 [H3 [H4 [H5 [H6 H7]]]]]].
-  repeat split; try assumption.
-  clear H6 H7. revert H1 H2 H3 H4 H5. generalize (chain (ev e) row). clear.
-  induction row as [|c r IH]; intros [|d l]; simpl; intros H1 H2 H3 H4 H5; try discriminate; [reflexivity|].
-  inversion H1; inversion H2; inversion H3; inversion H4; inversion H5.
-  rewrite (IH l) by assumption. congruence.
+  intros He. unfold row_head. destruct (filter (in_period (period e)) s) as [|c r] eqn:E; [auto|].
+  assert (In c (filter (in_period (period e)) s)) as H by (rewrite E; now left).
+  apply filter_In in H. destruct H as [H1 H2]. apply zpair_eqb_eq in H2. auto.
+Qed.
+Lemma row_head_same_slice m t e :
+  In e (slice_cells m t) -> meta_pyeq (cmeta (row_head (slice_cells m t) e)) (cmeta e) = true.
+Proof.
+  intros He. destruct (row_head_spec _ _ He) as [Hh _].
+  apply slice_cells_In in Hh. apply slice_cells_In in He. destruct Hh as [_ Hh]. destruct He as [_ He].
+  eapply meta_pyeq_trans; [|exact He]. rewrite meta_pyeq_sym. exact Hh.
 Qed.
 
 (* the operator as a whole *)
@@ -277,10 +310,10 @@ Proof.
   - intros ->. reflexivity.
 Qed.
 
-(* the incremental result has the same coordinates / metadata / values as the cumulative one *)
+(* the incremental result has the same coordinates / values as the cumulative one *)
 Lemma rt_slice_inc_coords u lags s :
-  map (fun c => (ps c, pe c, ev c, cmeta c, cvals c)) (rt_slice true u lags s) =
-  map (fun c => (ps c, pe c, ev c, cmeta c, cvals c)) (rt_slice false u lags s).
+  map (fun c => (ps c, pe c, ev c, cvals c)) (rt_slice true u lags s) =
+  map (fun c => (ps c, pe c, ev c, cvals c)) (rt_slice false u lags s).
 Proof.
   unfold rt_slice. induction (edges s) as [|e r IH]; [reflexivity|].
   cbn [flat_map]. rewrite !map_app. f_equal; [apply right_triangle_inc_rows|exact IH].
